@@ -343,7 +343,8 @@ pub fn simple_literal(sch: &Sch, ty: &str) -> Value {
 /// One operation (+ the fragments it needs) over the schema.
 pub fn gen_doc(c: &mut Chooser, sch: &Sch, depth: usize, custom_dirs: bool) -> ExecDoc {
     let kind = [OpKind::Query, OpKind::Mutation, OpKind::Subscription][c.choose("op.kind", 3)];
-    let named = !c.flag("op.anonymous");
+    // "F0": the same name as the first fragment (operations and fragments are separate namespaces)
+    let op_name = [Some("Q"), None, Some("F0")][c.choose("op.name", 3)];
     let mut g = DocGen { c, sch, vars: vec![], frags: vec![], nalias: 0, custom_dirs };
     let root = sch.root(kind).unwrap_or_else(|| "Query".into());
     let sel = g.selset(&root, depth);
@@ -366,7 +367,7 @@ pub fn gen_doc(c: &mut Chooser, sch: &Sch, depth: usize, custom_dirs: bool) -> E
     let mut defs = vec![ExecDef::Op {
         p: p0(),
         kind,
-        name: if named { Some(nm("Q")) } else { None },
+        name: op_name.map(nm),
         vars: if vars.is_empty() { None } else { Some((p0(), vars)) },
         dirs: op_dirs,
         sel,
